@@ -57,7 +57,8 @@ def _worker(args):
     out = dict(job=job, label=label, error=None, result=None, validated=0, validation_error=None)
     t0 = time.perf_counter()
     try:
-        with H.patched(**h.get("patch", {})):
+        pcfg = h.get("patch", {})
+        with H.patched(**(pcfg() if callable(pcfg) else pcfg)):
             run = h["run"](job)
             res = explore(run, label=label, max_paths=job.get("max_paths", 400_000),
                           max_seconds=job.get("max_seconds", 3300.0) if tier == "thorough" else min(job.get("max_seconds", 600.0), 600.0),
